@@ -66,6 +66,14 @@ def rule_C05(env):
         if len(samples) < 4:
             samples.append({"op": op, "protocols": Ps, "opcodes": [r["name"] for r, _, _ in decoded if r]})
     res.floor("R05.b", 300, "emission leaves")
+    # which opcodes the output contains is decided by decoding it: an emission that is not the one well-formed opcode assumed
+    # here (e.g. a raw newline ending a text argument early) turns payload bytes into opcodes of any protocol (O5, as in C01-C04)
+    import rules_c04
+    tmp = Result("C05", "proof")
+    rules_c04.emission_findings(env, tmp, tr, "safe")
+    for f in tmp.findings:
+        res.add("O5", f.key.split("/", 2)[2], "the emitted bytes are not the single well-formed opcode assumed here, so the decoded stream "
+                "contains whatever the payload bytes spell: " + f.msg, f.where, f.detail)
     # collapse phase
     lvs = env.memo("cleanup_leaves", lambda: GA.cleanup_leaves(env))
     loc_c = PV.op_loc(env, "::cleanup_for_stop")
